@@ -1,6 +1,7 @@
 import Originium.Model.Wal
 import Originium.Model.Pool
 import Originium.Model.CodecTie
+import Originium.Model.TypesTie
 /-! # C11 — on-disk encodings round-trip exactly and stay intact after the encoder returns
 
 All layouts are written out byte for byte in `Model/Codec*.lean` and `Model/Wal.lean`; S2 compression
@@ -156,6 +157,14 @@ theorem C11_code_meta_roundtrip (created level : Nat) (h1 : created < 2 ^ 64) (h
   rw [CodecTie.decodeMeta_eq, C11_meta_roundtrip { createdUnix := created, level := level } h1 h2]
   rfl
 
+/-- The *translated* `utils.LCP` (`GenTypes.lcp`, regenerated from `/repo/utils/utils.go` on every run: `n := min(len(a), len(b))`,
+the index loop with fuel) is the model's `lcp` on every pair of byte strings — so the prefix length the translated `Data.Encode`
+stores is the one the round trip `C11_code_data_roundtrip` was proved for — and the key is rebuilt from the previous key:
+the first `lcp` bytes of both agree. -/
+theorem C11_code_lcp (a b : Bytes) :
+    GenTypes.lcp a b = lcp a b ∧ b.take (GenTypes.lcp a b) = a.take (GenTypes.lcp a b) := by
+  rw [TypesTie.lcp_eq]; exact ⟨rfl, lcp_take a b⟩
+
 #print axioms C11_data_guard
 #print axioms C11_data_roundtrip
 #print axioms C11_code_data_encode
@@ -173,4 +182,5 @@ theorem C11_code_meta_roundtrip (created level : Nat) (h1 : created < 2 ^ 64) (h
 #print axioms C11_wal_torn
 #print axioms C11_result_not_pooled
 #print axioms C11_alias_witness
+#print axioms C11_code_lcp
 end Props
